@@ -131,6 +131,22 @@ def prov_relative_attr(repo, tier="quick"):
             e = elem_of(ct[3][2]) if len(ct[3]) > 2 else None
             if e or (len(ct[3]) > 2 and ct[3][2][0] == "sub"):
                 ok_set = True
+    # the write-back is not suppressed for a non-empty translation table
+    neg_guard = False
+    for call, nid, _ in sets:
+        ct = fl.canon(call, nid)
+        if ct[3] and ct[3][0] == R and len(ct[3]) > 1:
+            tbl = ct[3][1]
+            for test, pol, gid in guards_of(fi, nid):
+                tt = fl.canon(test, gid)
+                if tt == tbl and not pol:
+                    neg_guard = True
+                c_len = is_call(tt, "len")
+                if c_len and c_len[0] and c_len[0][0] == tbl and not pol:
+                    neg_guard = True
+    if neg_guard:
+        obs.append(ob_fail(oid, fi, construct="set_node_attributes(new_graph, translated, attr) only when the translation table is empty", instance="write-back",
+                           reason="the translated node references are never written to the relabelled graph"))
     ok = remaps >= 2 and ok_set
     (obs.append(ob_ok(oid, fi, construct="values -> mapping[value] for every relative attribute, written back on the relabelled graph", instance="remap",
                       reason="node references survive the renumbering")) if ok else
